@@ -328,7 +328,7 @@ class C05(Prop):
     thorough_n = 600
     search_n = 150
     design_ref = "5/C05"
-    technique = ("Lean 4 proof (big-step error-recovery machine, mutual induction over op trees) + translator-generated "
+    technique = ("Lean 4 proof (big-step error-recovery machine; the core induction over all op trees is proved; top theorem model_satisfies_spec) + translator-generated "
                  "constants + fault injection at every instruction of generated LPC programs (hook H2), model/implementation "
                  "correspondence on outcome sets, register snapshots and control-stack shapes")
     level_text = ("Lean 4 theorems about an executable model of save_context/restore_context/pop_context, "
@@ -339,14 +339,14 @@ class C05(Prop):
                   "with the model; the Lean oracle judges every implementation trace")
     level_note = ("trusted: Lean kernel; extract.py; the correspondence harness (differential, only the generated programs); "
                   "registers are opaque values; value-stack depths of efun temporaries are approximated by the generator; "
-                  "heart-beat switch-off in error_handler, console-mode resume and move/destruct hooks are not generated")
+                  "heart-beat switch-off in error_handler and console-mode resume are not generated")
     rule = ("cases = corpus + known-finding inputs + boundary list + seeded random LPC programs (nested local calls, "
             "call_other incl. surplus arguments, function pointers of every kind, map/filter/sort_array/unique_array "
             "callbacks, catch in catch, error()/throw(), safe applies via sprintf(\"%O\"), create() in load_object/new, "
-            "input_to, enable_commands); every program is run once per instruction with a fault injected there; a case "
+            "input_to, enable_commands, init() hooks via move_object, move_or_destruct() hooks via destruct, and the program "
+            "as a callback of the real call_out() sweep); every program is run once per instruction with a fault injected there; a case "
             "is non-trivial when its trace has >= 2 lines; distinct = distinct canonical implementation trace")
-    not_covered = ["errors inside init()/move_or_destruct() hooks are not generated (the guard reset of restrict_destruct is only proved on the model)",
-                   "heart-beat switch-off in error_handler and the backend()/call_out() resume points are not exercised",
+    not_covered = ["heart-beat switch-off in error_handler, the backend() main-loop resume point and reset()/clean_up() recovery are not exercised (the call_out() sweep resume point is)",
                    "C locals of efuns that are live across a longjmp (observed via ASan only)",
                    "value-stack depths inside efuns are approximated (only the depth after recovery is observed)"]
 
